@@ -154,6 +154,12 @@ impl RK4 {
                 last = true;
             }
 
+            // A step below the resolution of x would never advance it (the default step budget is unlimited)
+            if x + h == x {
+                status = Status::StepSizeTooSmall;
+                break;
+            }
+
             // Stage computations
             for i in 0..n {
                 yt[i] = y[i] + h * A21 * k1[i];
